@@ -104,6 +104,11 @@ Fixpoint wf_order (earlier : list name) (p : prog) : bool :=
       && wf_order (d_name d :: earlier) p'
   end.
 Definition all_fields (p : prog) : list fdecl := flat_map d_fields p.
+Definition pyname_of (p : prog) (m : name) : name :=
+  match find_decl p m with Some d => d_pyname d | None => m end.
+(* no other class of the program has the __name__ of h *)
+Definition unique_py (p : prog) (h : name) : bool :=
+  forallb (fun d => negb (Pos.eqb (d_pyname d) (pyname_of p h)) || Pos.eqb (d_name d) h) p.
 Definition wf_prog (p : prog) : bool :=
   wf_order [] p
   && nodupb (map f_name (all_fields p))                       (* no field name is declared twice (no overriding) *)
@@ -111,7 +116,10 @@ Definition wf_prog (p : prog) : bool :=
   && forallb (fun d => forallb (fun b => match find_decl p b with
                                           | Some d' => match d_kind d' with DDataclass => true | _ => false end
                                           | None => false end) (d_bases d)) p
-  && forallb (fun d => Pos.eqb (d_pyname d) (d_name d)) p.      (* no two classes share a __name__ *)
+  (* classes may share a __name__ (namesakes in different modules); only a name that nothing but the diagram or a scan of
+     the loaded modules can resolve -- imported under TYPE_CHECKING only, or local to a function / class -- must be unique *)
+  && forallb (fun d => forallb (unique_py p) (d_hidden d)) p
+  && forallb (fun f => match seen_through (f_ann f) with FwdLocal n => unique_py p n | _ => true end) (all_fields p).
 (* a forward reference to a class that is not a module-level name can only be found in the diagram *)
 Definition locals_in (cs : list name) (t : ty) : bool :=
   match seen_through t with FwdLocal n => mem n cs | _ => true end.
